@@ -26,6 +26,9 @@ TRACE_CFG = "RingTrace.cfg"
 SIG_FLAVOURS = ("sig", "usig", "vsig", "uvsig")
 OP_KEYS = ("op", "l", "l2", "x", "x2")
 MAX_ABORTS_PER_WORKER = 12
+LIST_KINDS = ("list_ctor", "list_move_ctor", "list_move_assign", "list_dtor", "elem_ctor", "elem_move_ctor",
+              "elem_move_assign", "elem_dtor", "unlink")
+SIG_KINDS = ("sig_ctor", "sig_move_ctor", "sig_move_assign", "sig_dtor", "connect", "disconnect")
 
 # (config, invariant TLC must report violated): every invariant can fail
 GUARDS = [
@@ -277,7 +280,9 @@ def model_check_jobs(ctx, thorough):
     def mc(mod, cfg):
         r = vlib.tlc_mc(ctx, mod, cfg, workers=8, coverage=cov, timeout=3000)
         if cov:
-            c = r.coverage()
+            c = {}
+            for m in re.finditer(r"<(\w+) line \d+, col \d+ to line \d+, col \d+ of module \w+(?: \([\d ]+\))?>: (\d+):(\d+)", r.out):
+                c[m.group(1)] = (int(m.group(2)), int(m.group(3)))
             acts = [a for a in ("Next", "RNext", "SNext") if a in c]
             zero = [a for a in acts if c[a][0] == 0]
             if zero or not acts:
@@ -318,6 +323,16 @@ def run(ctx):
     ctx.mc_runs.sort(key=lambda r: (r["module"], r["cfg"]))
     ctx.extra["vacuity_guards"].sort(key=lambda g: g["cfg"])
     small, big, sigs, binary = out["small"], out["big"], out["sigs"], out["binary"]
+    # vacuity: every kind of operation is the last step of some generated transition
+    for name, scripts, kinds in (("Ring", big, LIST_KINDS), ("Ring (small)", small, LIST_KINDS), ("Signal", sigs, SIG_KINDS)):
+        taken = {}
+        for sc in scripts:
+            if sc:
+                taken[sc[-1]["op"]] = taken.get(sc[-1]["op"], 0) + 1
+        missing = [k for k in kinds if not taken.get(k)]
+        if missing:
+            raise vlib.Infra("operation kind(s) %s never taken in the %s model" % (missing, name))
+        ctx.extra.setdefault("transitions_per_operation", {})[name] = taken
     # every script of the small list model three times so that the harness finishes it with each
     # of its three destruction orders (order = script index mod 3)
     small.sort(key=len)
